@@ -55,6 +55,7 @@ let suite_hops (line : string) : string =
                 hw_risk_admin_signs = false } in
   let nops = ni t in
   let out = ref [] in
+  let rotated = ref false in
   let ra = ref (-1) in        (* account whose authority is the group's risk admin (fixture op 30) *)
   for _ = 1 to nops do
     let op = ni t in
@@ -96,6 +97,17 @@ let suite_hops (line : string) : string =
     end else if op = 37 then begin
       let r = nn t in let e = nn t in let ab = nn t in let lb = nn t in let n = nz t in
       let res = match M.h_liquidate_norem !w r e ab lb n with M.Ok w' -> w := w'; "OK" | M.Err e -> err_s e in
+      out := (res ^ " # " ^ dump_hworld !w) :: !out
+    end else if op = 39 then begin
+      (* the global fee wallet is rotated (real edit_global_fee_state, not propagated): the fee ATA that op 16 passes from
+         now on is the NEW wallet's, an empty account *)
+      rotated := true;
+      w := { !w with M.hw_banks = Stdlib.List.map (fun hb -> M.set_hb_feeata (zi 0) hb) !w.M.hw_banks };
+      out := ("OK # " ^ dump_hworld !w) :: !out
+    end else if op = 40 then begin
+      let b = nn t in
+      let res = match (if !rotated then M.h_collect_fees_foreign_ata !w b else M.hstep !w (M.HCollectFees b)) with
+        | M.Ok w' -> w := w'; "OK" | M.Err e -> err_s e in
       out := (res ^ " # " ^ dump_hworld !w) :: !out
     end else if op = 32 then begin
       let b = nn t in let _a = ni t in
